@@ -15,6 +15,7 @@ import (
 	"strconv"
 	"strings"
 	"sync"
+	"sync/atomic"
 	"time"
 
 	NoKV "github.com/feichai0017/NoKV"
@@ -28,9 +29,10 @@ import (
 )
 
 type gate struct {
-	mu     sync.Mutex
-	closed bool
-	ch     chan struct{}
+	mu           sync.Mutex
+	closed       bool
+	ch           chan struct{}
+	failManifest atomic.Bool // writes to MANIFEST-* fail while set
 }
 
 func (g *gate) set(closed bool) {
@@ -90,12 +92,20 @@ func (s *c36db) open(dir string) (res string) {
 	opt := NoKV.NewDefaultOptions()
 	opt.WorkDir = dir
 	opt.EnableWALWatchdog = false // run explicitly
-	opt.MemTableSize = 8 << 20
+	opt.MemTableSize = 1 << 20
+	opt.ValueLogBucketCount = 1
+	opt.ValueLogFileSize = 1 << 20
+	opt.HotRingEnabled = false
+	opt.BlockCacheSize = 0
+	opt.BloomCacheSize = 0
 	opt.ValueThreshold = 1 << 20
 	opt.NumLevelZeroTables = 4096 // keep the background compactor idle: it is not part of C36
 	opt.FS = vfs.NewFaultFS(vfs.OSFS{}, func(op vfs.Op, path string) error {
 		if strings.HasSuffix(path, ".sst") {
 			g.wait()
+		}
+		if op == vfs.OpFileWrite && g.failManifest.Load() && strings.HasPrefix(filepath.Base(path), "MANIFEST") {
+			return fmt.Errorf("injected manifest write failure")
 		}
 		return nil
 	})
@@ -103,6 +113,9 @@ func (s *c36db) open(dir string) (res string) {
 	s.dir = dir
 	s.ws = map[uint64]*engine.WALStorage{}
 	s.wsErr = map[uint64]bool{}
+	// the flushes of the recovered immutable memtables run in the background; the model orders
+	// them before the raft storages are opened, so wait for them here (either order can happen)
+	s.waitFlush()
 	for _, gid := range []uint64{1, 2} {
 		var ws *engine.WALStorage
 		var err error
@@ -192,7 +205,7 @@ func (e *c36Engine) Rule() string {
 
 func (e *c36Engine) Exec(ops []string) []string {
 	out := make([]string, len(ops))
-	root, err := os.MkdirTemp("", "raftwal36-")
+	root, err := os.MkdirTemp(tmpBase(), "raftwal36-")
 	if err != nil {
 		panic(err)
 	}
@@ -291,6 +304,23 @@ func (e *c36Engine) Exec(ops []string) []string {
 				break
 			}
 			out[i] = s.segs()
+		case "s.flushfail":
+			// a rotation whose flush fails when it logs the manifest edits
+			s.g.set(false)
+			s.waitFlush()
+			s.g.failManifest.Store(true)
+			s.seq++
+			err1 := s.db.Set(key(padKey), []byte(strconv.Itoa(s.seq)))
+			s.db.VerifRaftwalRotate()
+			s.waitFlush()
+			s.g.failManifest.Store(false)
+			s.seq++
+			err2 := s.db.Set(key(padKey), []byte(strconv.Itoa(s.seq)))
+			if err1 != nil || err2 != nil {
+				out[i] = "err"
+				break
+			}
+			out[i] = s.segs()
 		case "s.watchdog":
 			db := s.db
 			w := wal.NewWatchdog(wal.WatchdogConfig{
@@ -339,7 +369,7 @@ func (e *c36Engine) Gen(r *hlib.Rand, tier string) []string {
 	nextKey := 0 // every put uses a fresh key: rewrites of one key across L0 tables are C01's subject
 	for i := 0; i < n; i++ {
 		g := 1 + r.Intn(2)
-		if r.Chance(70) {
+		if r.Chance(40) {
 			g = 1
 		}
 		switch x := r.Intn(100); {
@@ -371,6 +401,14 @@ func (e *c36Engine) Gen(r *hlib.Rand, tier string) []string {
 			// memtables under an existing table id makes the background compactor panic
 			// ("cs.tables is nil"), which kills the harness process — outside C36)
 			ops = append(ops, "s.segs")
+		}
+	}
+	if r.Chance(25) {
+		// only as the last mutation: after a failed flush, later flushes move the manifest log
+		// pointer past the stuck memtable (see the report: a separate defect of the recovery remover)
+		ops = append(ops, "s.gate open", "s.flushfail")
+		if r.Chance(50) {
+			ops = append(ops, "s.watchdog")
 		}
 	}
 	ops = append(ops, "s.segs", "s.crash", "s.rstate 1", "s.rstate 2")
